@@ -234,6 +234,17 @@ Section Faithful.
     | S fuel' =>
       if seen v id t then Some v
       else
+      (* Box / Cow are transparent on the wire: a generated  <alloc>::borrow::Cow<X>  (emitted for a
+         Cow nested directly in a Cow) is read as X *)
+      match (match t with
+             | PPath true segs => match path_is segs (alloc_path ["borrow"; "Cow"]) with
+                                  | Some [x] => Some x
+                                  | _ => None
+                                  end
+             | _ => None
+             end) with
+      | Some x => faith fuel' id x v
+      | None =>
       let v := (id, t) :: v in
       match resolve r id with
       | None => None
@@ -251,6 +262,12 @@ Section Faithful.
         match ty1 with
         | None => None
         | Some ty =>
+          if (match path_ident (t_path ty0), path_ident (t_path ty) with
+              | Some "Cow", Some "Cow" => true
+              | _, _ => false
+              end)
+          then faith fuel' (uncow r id) t v
+          else
           let all2 (ids : list N) (ts : list pty) (v : visited) : option visited :=
             (fix go (ids : list N) (ts : list pty) (v : visited) : option visited :=
                match ids, ts with
@@ -424,6 +441,7 @@ Section Faithful.
               end
           end
         end
+      end
       end
     end.
 
